@@ -46,10 +46,10 @@ def run18(tier):
     bf = _b_fp()
     bs = _b_spvec()
     if tier == "quick":
-        fa = ["--gcd-box", 64, "--inv-pmax", 64, "--prime-max", 10000]
+        fa = ["--gcd-box", 256, "--inv-pmax", 200, "--prime-max", 2000000]
         cfgs = ["fp:long:2:2:2", "fp:int:3:2:2", "fp:cpp_int:5:2:2", "fp:long:7:2:2", "fp:cpp_int:2:2:3", "fp:long:3:2:3"]
     else:
-        fa = ["--gcd-box", 400, "--inv-pmax", 300, "--prime-max", 1000000]
+        fa = ["--gcd-box", 1500, "--inv-pmax", 1000, "--prime-max", 20000000]
         cfgs = ["fp:%s:%d:2:%d" % (t, p, d) for t in ("int", "long", "cpp_int") for p in (2, 3, 5, 7) for d in (2, 3)]
     r1 = vlib.run_harness(bf, fa + ["--seed", vlib.seed()])
     c.add_run(r1, "fp/primes argument boxes " + r1["args"], None, replay={"harness": "fp_enum"})
